@@ -3,6 +3,9 @@ import LinOp.C07.ProofsBackward
 import LinOp.C07.ProofsEig
 import Mathlib.Tactic.NormNum
 import LinOp.C07.ProofsFunc
+import LinOp.C07.ProofsEntry
+import LinOp.Generated.C07Funcs
+import Mathlib.Tactic.FinCases
 /-!
 C07 — gradients through operators equal gradients through the dense computation.  Property theorems only.
 
@@ -348,6 +351,174 @@ theorem pivotedCholesky_backward_recompute {m r : Nat} (L Linv K11 : Matrix (Fin
     L * Lᵀ = K11 ∧ (K21 * Linvᵀ) * Lᵀ = K21 ∧ (K21 * Linvᵀ) * (K21 * Linvᵀ)ᵀ = K21 * (Linvᵀ * Linv) * K21ᵀ
       ∧ (Linvᵀ * Linv) * K11 = 1 :=
   pivotedCholesky_recompute L Linv K11 K21 hL hinv
+
+/-! ### Extension session 5: entry points through `Matmul` with special right-hand sides, generic context, more backward formulas -/
+
+/-- **`to_dense()`** (`self.matmul(eye)` → `Matmul.backward` → `_bilinear_derivative(G, eye)`): for EVERY operator tree the tuple
+pairs with every parameter perturbation to `⟨G, D⟦op⟧_θ[δ]⟩` — the gradient of `⟨G, dense matrix⟩`. -/
+theorem toDense_backward {n m : Nat} (o : Op n m) (θ δ : Param α o) (G : Mat α n m) :
+    pair o (toDenseBackward o θ G) δ = ∑ i, ∑ j, G i j * dDenote o θ δ i j :=
+  toDense_pair o θ δ G
+
+/-- `to_dense()` of a wide operator (`num_rows < num_cols`: `self.mT.matmul(eye).mT`): the transposed operator's derivative with
+`(Gᵀ, eye)` pairs to the same `⟨G, D⟦op⟧_θ[δ]⟩`. -/
+theorem toDense_backward_wide {n m : Nat} (o : Op n m) (θ δ : Param α o) (G : Mat α n m) :
+    pair (.transpose o) (bilinDeriv (.transpose o) θ (fun j i => G i j) (idMat n)) δ = ∑ i, ∑ j, G i j * dDenote o θ δ i j :=
+  toDenseWide_pair o θ δ G
+
+/-- **diagonal** through the structured derivative: factors `(diag(g), eye)` pair to `Σ_i g_i · (D⟦op⟧_θ[δ])_ii`, every tree. -/
+theorem diagonal_backward {n : Nat} (o : Op n n) (θ δ : Param α o) (g : Fin n → α) :
+    pair o (diagonalBackward o θ g) δ = ∑ i, g i * dDenote o θ δ i i :=
+  diagonal_pair o θ δ g
+
+/-- **single entry** `op[i, j] = e_iᵀ (op @ e_j)`: factors `(g·e_i, e_j)` pair to `g · (D⟦op⟧_θ[δ])_ij`, every tree. -/
+theorem getitem_backward {n m : Nat} (o : Op n m) (θ δ : Param α o) (i : Fin n) (j : Fin m) (g : α) :
+    pair o (getitemBackward o θ i j g) δ = g * dDenote o θ δ i j :=
+  getitem_pair o θ δ i j g
+
+/-- **`op.sum(-1)`** (`op @ ones`) and **`op.sum(-2)`** (`op.mT @ ones`): factors `(g, ones)` / `(ones, g)` pair to the weighted
+row / column sums of the derivative, every tree. -/
+theorem sum_backward {n m : Nat} (o : Op n m) (θ δ : Param α o) (g : Fin n → α) (h : Fin m → α) :
+    pair o (sumLastBackward o θ g) δ = ∑ i, g i * ∑ j, dDenote o θ δ i j
+    ∧ pair o (sumFirstBackward o θ h) δ = ∑ j, h j * ∑ i, dDenote o θ δ i j :=
+  ⟨sumLast_pair o θ δ g, sumFirst_pair o θ δ h⟩
+
+/-- **`settings.memory_efficient` is irrelevant for EVERY Function** whose backward works with
+`ctx._linear_op if hasattr(ctx, "_linear_op") else ctx.representation_tree(*matrix_args)` (Matmul, Solve, InvQuad,
+RootDecomposition, Diagonalization — table `C07Funcs.keepOrRebuild`) or always rebuilds (InvQuadLogdet, PivotedCholesky): the operator
+the backward sees is the forward's operator, whichever the flag — so any function of it (every gradient) is the same. -/
+theorem memoryEfficient_irrelevant_ctx {n m : Nat} (o : Op n m) (θ : Param α o) (me : Bool) :
+    ctxOperator o (forwardCtx me o θ) = θ ∧ ctxRebuilt o (forwardCtx me o θ) = θ :=
+  ⟨ctxOperator_forward me o θ, ctxRebuilt_forward me o θ⟩
+
+/-- **`InvQuadLogdet.backward` does not depend on `skip_logdet_forward` or `memory_efficient`**: the parameter gradients computed
+from the context left by the forward under any setting of the two flags are `_bilinear_derivative` of the forward's operator with
+the concatenated factors (hence, by `invQuadLogdet_concatenated`, pair to the sum of the two bilinear forms). -/
+theorem invQuadLogdet_settings_irrelevant {n m d₁ d₂ : Nat} (o : Op n m) (θ : Param α o) (skip me : Bool) (logdet : α)
+    (L₁ : Mat α n d₁) (L₂ : Mat α n d₂) (R₁ : Mat α m d₁) (R₂ : Mat α m d₂) :
+    invQuadLogdetBackwardArgs o (invQuadLogdetForward skip me o θ logdet).1 L₁ L₂ R₁ R₂
+      = bilinDeriv o θ (hcat L₁ L₂) (hcat R₁ R₂) := by
+  simp only [invQuadLogdetBackwardArgs, invQuadLogdetForward, ctxRebuilt_forward]
+
+/-- **`InvQuad.backward` / the inv_quad block of `InvQuadLogdet.backward`, with the per-column upstream gradient** `g_c`
+(`inv_quad_term` has one entry per column of the rhs): `Σ_c g_c · d(x_cᵀ b_c) = 2 Σ_c g_c x_cᵀ db_c + bil(dA; −X diag g, X)` — the rhs
+receives `2 · X diag g` (`neg_inv_quad_solves_times_grad_out.mul(-2)`), the parameters `_bilinear_derivative(−X diag g, X)` — exactly
+the code's `left_factors = inv_quad_solves.mul(grad).mul(-1)`, `right_factors = inv_quad_solves`.  `g = 1` is `invQuad_backward`. -/
+theorem invQuad_backward_weighted {n c : Nat} (A dA : Matrix (Fin n) (Fin n) α) (X dX B dB : Matrix (Fin n) (Fin c) α)
+    (g : Fin c → α) (hs : Aᵀ = A) (h0 : A * X = B) (h1 : A * dX + dA * X = dB) :
+    Matrix.trace (Matrix.diagonal g * (dXᵀ * B + Xᵀ * dB))
+      = Matrix.trace (Matrix.diagonal g * (Xᵀ * dB)) + Matrix.trace (Matrix.diagonal g * (Xᵀ * dB))
+        + bilS dA (-(X * Matrix.diagonal g)) X :=
+  invQuad_weighted_first_order A dA X dX B dB g hs h0 h1
+
+/-- **`DSMM.backward`** (`bdsmm(sparse, dense)`; only the dense factor is differentiable): the dense factor receives `Sᵀ G`. -/
+theorem dsmm_backward {n k c : Nat} (S : Matrix (Fin n) (Fin k) α) (dB : Matrix (Fin k) (Fin c) α) (G : Matrix (Fin n) (Fin c) α) :
+    Matrix.trace (Gᵀ * (S * dB)) = Matrix.trace ((Sᵀ * G)ᵀ * dB) :=
+  dsmm_pullback S dB G
+
+/-- **`SqrtInvMatmul.backward`, `lhs` branch** (`Y = L · Σ_q w_q X_q`, `(v·A + s_q) X_q = B`): the left factor receives
+`G (Σ_q w_q X_q)ᵀ` (`weighted_rhs_solves_mul_grad.mT.sum(0)`), the rhs `Σ_q w_q M_q⁻ᵀ Lᵀ G` (`(lhs_solves @ grad).mul(weights).sum(0)`),
+the matrix `−v Σ_q bil(dA; w_q M_q⁻ᵀLᵀG, X_q)`; and (second conjunct) the factors the code actually concatenates,
+`terms1 = lhs_solves = M_q⁻ᵀLᵀ`, `terms2 = (w_q X_q) Gᵀ`, pair to the same bilinear form; (third) the inv_quad block
+`(S, −S·diag g)`, `S = A⁻¹Lᵀ`, pairs to `−Σ_i g_i s_iᵀ dA s_i` (cf. `invQuad_backward`). -/
+theorem sqrtInvMatmul_backward_lhs {Q n c l : Nat} (v : α) (w s : Fin Q → α) (A dA : Matrix (Fin n) (Fin n) α)
+    (Minv : Fin Q → Matrix (Fin n) (Fin n) α) (X dX : Fin Q → Matrix (Fin n) (Fin c) α) (B dB : Matrix (Fin n) (Fin c) α)
+    (L dL : Matrix (Fin l) (Fin n) α) (G : Matrix (Fin l) (Fin c) α) (S : Matrix (Fin n) (Fin l) α) (g : Fin l → α)
+    (hinv : ∀ q, Minv q * (v • A + s q • 1) = 1) (h0 : ∀ q, (v • A + s q • 1) * X q = B)
+    (h1 : ∀ q, (v • A + s q • 1) * dX q + (v • dA) * X q = dB) :
+    Matrix.trace (Gᵀ * (dL * (∑ q, w q • X q) + L * ∑ q, w q • dX q))
+      = Matrix.trace ((G * (∑ q, w q • X q)ᵀ)ᵀ * dL)
+        + (Matrix.trace ((∑ q, w q • ((Minv q)ᵀ * (Lᵀ * G)))ᵀ * dB)
+            - v * ∑ q, bilS dA (w q • ((Minv q)ᵀ * (Lᵀ * G))) (X q))
+    ∧ (∀ q, bilS dA (w q • ((Minv q)ᵀ * (Lᵀ * G))) (X q) = bilS dA ((Minv q)ᵀ * Lᵀ) ((w q • X q) * Gᵀ))
+    ∧ bilS dA S (-(S * Matrix.diagonal g)) = - ∑ i, g i * (Sᵀ * dA * S) i i :=
+  ⟨sqrtInvMatmul_lhs_pullback v w s A dA Minv X dX B dB L dL G hinv h0 h1,
+   fun q => sqrtInvMatmul_lhs_factors (w q) dA (Minv q) (X q) L G, invQuad_weighted_factors dA S g⟩
+
+/-- **`PivotedCholesky.backward`, differential of the re-computed factor with the pivots held fixed** (`F = [L; F₂]`, `L Lᵀ = K₁₁`,
+`F₂ Lᵀ = K₂₁`, `L` and `dL` lower triangular — stated through `X = L⁻¹ dL`).  The first-order equations
+`dL Lᵀ + L dLᵀ = dK₁₁`, `dF₂ Lᵀ + F₂ dLᵀ = dK₂₁` DETERMINE the differential: `X = Φ(L⁻¹ dK₁₁ L⁻ᵀ)` (strictly lower part, half the
+diagonal — `2·X_ii = S_ii` —, zero above; i.e. `dL = L Φ(L⁻¹ dK₁₁ L⁻ᵀ)`, the Cholesky derivative torch implements) and
+`dF₂ = (dK₂₁ − F₂ dLᵀ) L⁻ᵀ` (the derivative of the `solve_triangular` row block).  Together with
+`pivotedCholesky_backward_recompute` this makes the derivative of the pivoted factor a consequence of the two defining equations;
+what stays assumed is that torch's `cholesky` / `solve_triangular` backward implement these formulas. -/
+theorem pivotedCholesky_backward_differential {m r : Nat} (L Linv dL dK11 : Matrix (Fin m) (Fin m) α)
+    (F2 dF2 dK21 : Matrix (Fin r) (Fin m) α) (hinv : Linv * L = 1)
+    (hX : ∀ i j, i < j → (Linv * dL) i j = 0)
+    (h1 : dL * Lᵀ + L * dLᵀ = dK11) (h2 : dF2 * Lᵀ + F2 * dLᵀ = dK21) :
+    (∀ i j, j < i → (Linv * dL) i j = (Linv * dK11 * Linvᵀ) i j)
+    ∧ (∀ i, (Linv * dL) i i + (Linv * dL) i i = (Linv * dK11 * Linvᵀ) i i)
+    ∧ (∀ i j, i < j → (Linv * dL) i j = 0)
+    ∧ dF2 = (dK21 - F2 * dLᵀ) * Linvᵀ := by
+  obtain ⟨a, b, c⟩ := lower_of_symm_sum (Linv * dL) (Linv * dK11 * Linvᵀ) hX (cholesky_first_order L Linv dL dK11 hinv h1)
+  exact ⟨a, b, c, pivoted_lower_block L Linv dL F2 dF2 dK21 hinv h2⟩
+
+/-- Hypotheses of `pivotedCholesky_backward_differential` are satisfiable non-trivially: `L = [[1,0],[1,1]]`, `dL = [[1,0],[2,3]]`. -/
+example : (!![1, 0; -1, 1] : Matrix (Fin 2) (Fin 2) ℚ) * !![1, 0; 1, 1] = 1
+    ∧ (((!![1, 0; -1, 1] : Matrix (Fin 2) (Fin 2) ℚ) * (!![1, 0; 2, 3] : Matrix (Fin 2) (Fin 2) ℚ)) :
+        Matrix (Fin 2) (Fin 2) ℚ) 0 1 = 0 := by
+  constructor
+  · ext i j; fin_cases i <;> fin_cases j <;> simp [Matrix.mul_apply, Fin.sum_univ_two]
+  · simp [Matrix.mul_apply, Fin.sum_univ_two]
+
+/-! ### Translator facts (`Generated/C07Funcs.lean`, regenerated from /repo's source by Python `ast` on every run) -/
+
+open LinOp.Generated.C07 in
+/-- **Positional gradient tuples are aligned with the forward's parameters** (source fact, all 9 Functions): every tuple-returning
+`return` of `backward` starts with at least one fixed slot per named parameter of `forward` (`ctx` excluded), at most two more
+(the tensors popped off `*args`: rhs / left factor), exactly as many when there is no `*args`; the leading literal `None`s
+(non-differentiable arguments: `representation_tree`, flags, sizes) are at least one and never more than the named parameters. -/
+theorem backward_tuple_covers_forward_params :
+    ∀ f ∈ funcs, f.bwdLeading ≠ [] ∧ f.bwdLeadingNone ≠ []
+      ∧ (∀ k ∈ f.bwdLeading, f.fwdFixed ≤ k ∧ k ≤ f.fwdFixed + 2 ∧ (f.fwdVarargs = false → k = f.fwdFixed))
+      ∧ (∀ z ∈ f.bwdLeadingNone, 1 ≤ z ∧ z ≤ f.fwdFixed) := by
+  decide +kernel
+
+open LinOp.Generated.C07 in
+/-- The exact layout the backward-formula theorems assume: (name, named forward parameters, fixed leading slots per return, leading
+`None`s) — Matmul `(None, rhs_grad, *args)`, Solve `(None, None, [left,] rhs, *args)`, InvQuad `(None, rhs, *args)`, InvQuadLogdet
+`7 × None (+ rhs)`, RootDecomposition `9 × None`, Diagonalization `6 × None`, PivotedCholesky `3 × None`, SqrtInvMatmul
+`(None, rhs, lhs, *args)`, DSMM `(None, dense)`. -/
+theorem backward_tuple_layout :
+    funcs.map (fun f => (f.name, f.fwdFixed, f.bwdLeading, f.bwdLeadingNone))
+      = [("Matmul", 2, [2], [1]), ("Solve", 2, [3, 4], [2]), ("InvQuad", 1, [2], [1]), ("InvQuadLogdet", 7, [7, 8], [7]),
+         ("RootDecomposition", 9, [9], [9]), ("Diagonalization", 6, [6], [6]), ("PivotedCholesky", 3, [3], [3]),
+         ("SqrtInvMatmul", 3, [3], [1]), ("DSMM", 2, [2], [1])] := by
+  decide +kernel
+
+open LinOp.Generated.C07 in
+/-- **How each backward obtains its operator** (source fact): the forward stores `ctx._linear_op` under
+`settings.memory_efficient.off()` exactly when the backward uses the keep-or-rebuild pattern modelled by `ctxOperator`; every
+backward that calls `_bilinear_derivative` is in one of the three modelled modes (keep-or-rebuild, always rebuild = `ctxRebuilt`,
+always keep `ctx.linear_op`), so `memoryEfficient_irrelevant_ctx` applies to all of them; `settings.skip_logdet_forward` is read
+by `InvQuadLogdet.forward` only and by no backward (`invQuadLogdet_settings_irrelevant`). -/
+theorem memoryEfficient_dispatch_table :
+    ∀ f ∈ funcs, f.storesOp = f.keepOrRebuild
+      ∧ (f.keepOrRebuild = true → f.rebuilds = false ∧ f.alwaysKeeps = false)
+      ∧ (0 < f.bilinearCalls → (f.keepOrRebuild || f.rebuilds || f.alwaysKeeps) = true)
+      ∧ f.skipBwd = false ∧ (f.skipFwd = true → f.name = "InvQuadLogdet") := by
+  decide +kernel
+
+open LinOp.Generated.C07 in
+/-- **Every operator class's derivative code is the code the model mirrors** (source fact, all classes of
+`linear_operator/operators`): the class providing `_bilinear_derivative` is either hand-written code with a model constructor
+(`providerCtor`), one of the two providers outside the model, or the base-class default — and a class resolving to the default is
+one of the listed classes modelled by the reverse sweep through its own `_matmul` (`defaultCtor`).  A new override, a removed one,
+or a new operator class breaks this obligation. -/
+theorem derivative_providers_modelled :
+    ∀ cp ∈ providers,
+      (cp.2 = "LinearOperator" ∧ cp.1 ∈ defaultCtor.map Prod.fst)
+      ∨ (cp.2 ≠ "LinearOperator" ∧ (cp.2 ∈ providerCtor.map Prod.fst ∨ cp.2 ∈ providerUnmodelled)) := by
+  decide +kernel
+
+open LinOp.Generated.C07 in
+/-- …and conversely every hand-written provider the model mirrors still exists in the source. -/
+theorem derivative_providers_present :
+    ∀ pc ∈ providerCtor, pc.1 ∈ providers.map Prod.snd := by
+  decide +kernel
+
+/-- The entry-point theorems quantify over every tree; a non-trivial instance (Kronecker under ConstantMul, 4 × 4). -/
+example : Op 4 4 := .constMul (.kron (.toeplitz 2) (.root (.dense 2 1)))
 
 /-- The hypotheses of `solveBackward_symmetrised` are satisfiable: `½ + ½ = 1` in ℚ, and a diagonal operator is symmetric
 along every perturbation. -/
